@@ -15,8 +15,8 @@ RULE = ("(A) MC_Array: the Array machine as a state graph - Arrays of 2/3-bit in
         "assignment (extended slices, wrong sizes, non-fitting values), deletion, append, extend, insert, pop, reverse, count, "
         "tolist, iteration, equals, copy / a[:], dtype change and back, byteswap, tobytes/tofile; element-wise + - * // % << >> "
         "with scalars, in place and not, comparisons, unary - and abs, & | ^, Array op Array with promotion on integer dtypes up "
-        "to 16 bits (results recomputed by TLC); struct-code dtypes and array.array interchange for every typecode. Float "
-        "element-wise arithmetic is not modelled (left unconstrained).")
+        "to 16 bits (results recomputed by TLC); struct-code dtypes and array.array interchange for every typecode. Arrays over power-of-two scaled dtypes (data = scaled encodings, tolist = scaled decodings) "
+        "next to unscaled ones; 0.0 / -0.0 and mode changes within one Array. Float element-wise arithmetic is not modelled (left unconstrained).")
 
 
 def run(chk):
@@ -28,6 +28,8 @@ def run(chk):
         chk.queue([arrayprogs.array_program(rng) for _ in range(2500 * k)], 'random-array-list')
         chk.queue([arrayprogs.array_op_program(rng) for _ in range(1200 * k)], 'random-array-operators')
         chk.queue([arrayprogs.array_struct_program(rng) for _ in range(500 * k)], 'random-array-struct')
+        chk.queue([arrayprogs.scaled_array_program(rng) for _ in range(400 * k)], 'random-array-scaled')
+        chk.queue([arrayprogs.array_memo_program(rng) for _ in range(300 * k)], 'random-array-equal-values')
         chk.flush()
         mc.result()
     return chk.finish(rule=RULE, assumptions=ASSUME + ['float arithmetic inside element-wise operators is taken from Python, not modelled'])
